@@ -12,6 +12,7 @@ import RodbusModel.Props.C11
 #print axioms Rodbus.Client.mismatch_discarded_at_deadline
 #print axioms Rodbus.Client.stale_frame_never_accepted
 #print axioms Rodbus.Client.stale_frame_never_accepted_mbap
+#print axioms Rodbus.Client.stale_frame_never_accepted_rtu
 #print axioms Rodbus.Client.stale_garbage_fails_request
 #print axioms Rodbus.Client.idle_dropped
 #print axioms Rodbus.Client.idle_frame_no_effect
@@ -19,3 +20,4 @@ import RodbusModel.Props.C11
 #print axioms Rodbus.Client.txSeq_reach
 #print axioms Rodbus.Client.out_reach
 #print axioms Rodbus.Client.mbap_discardComplete
+#print axioms Rodbus.Client.rtu_discardCompleteAt
